@@ -202,3 +202,38 @@ Example C19_source_example :
   SecurityGenEq.verb_name V_PUT = Some "PUT" /\
   SecurityGen.identity (A:=nat) None (Some 1) = "".
 Proof. vm_compute. repeat split. Qed.
+
+(* ---- fe._static by translation: the loop with its continue / break /
+   raising OS calls and the `if found` exit, regenerated from the source on
+   every run (Gen/StaticGen.v, tools/translate/static2coq.py), is the model
+   above for ALL oracles, request strings and roots; containment therefore
+   holds of the generated function itself ---- *)
+From DV Require Gen.StaticGen Proofs.StaticGenEq.
+
+Theorem C19_static_is_source :
+  forall (resolve : path -> option path) (is_dir is_file : path -> option bool)
+         (fn : list nat) (fe_path bdir : path),
+    StaticGen.static resolve is_dir is_file fn fe_path bdir
+    = static resolve is_dir is_file fn fe_path bdir.
+Proof. exact StaticGenEq.static_gen_eq. Qed.
+Print Assumptions C19_static_is_source.
+
+Theorem C19_contained_is_source :
+  forall (resolve : path -> option path) (is_dir is_file : path -> option bool)
+         (fn : list nat) (fe_path bdir p : path),
+    StaticGen.static resolve is_dir is_file fn fe_path bdir = Served p ->
+    exists d, (resolve fe_path = Some d \/ resolve bdir = Some d) /\
+              under d p = true /\ is_file p = Some true /\
+              exists q, resolve q = Some p.
+Proof.
+  intros resolve is_dir is_file fn fe_path bdir p H.
+  rewrite StaticGenEq.static_gen_eq in H. exact (C19_contained _ _ _ _ _ _ _ H).
+Qed.
+Print Assumptions C19_contained_is_source.
+
+Example C19_static_source_example :
+  StaticGen.static StaticExamples.res StaticExamples.isd StaticExamples.isf [47; 97]
+    StaticExamples.R1 StaticExamples.R2 = Served (StaticExamples.R1 ++ [StaticExamples.A]) /\
+  StaticGen.static StaticExamples.res StaticExamples.isd StaticExamples.isf [47; 46; 46; 47; 115]
+    StaticExamples.R1 StaticExamples.R2 = NotFound [Jail; Jail].
+Proof. vm_compute. split; reflexivity. Qed.
